@@ -65,17 +65,6 @@ func (w *world) ack(c *simChan) {
 	w.mu.Unlock()
 }
 
-// retract removes the state of a mutation that was issued but reported as
-// definitely not applied; only legal when no disk call happened in between
-// that could have been cloned with it (the caller checks the result first).
-func (w *world) retract(c *simChan) {
-	w.mu.Lock()
-	if len(c.states) > 1 && c.acked < len(c.states)-1 {
-		c.states = c.states[:len(c.states)-1]
-	}
-	w.mu.Unlock()
-}
-
 type errKind int
 
 const (
